@@ -74,6 +74,27 @@ func (f *mserve) Exec(r *hx.Run, op []string) string {
 			return "bad-op"
 		}
 		return levelsStr(merkle.MerkleHashes(hs, d))
+	case "hleaf":
+		// HashLeaf and TreeHasher.hash_leaf (through HashFullTree of one leaf) against the reference, per length
+		d := hx.UnHex(op[1])
+		a := merkle.HashLeaf(d)
+		b := merkle.TreeHasher{}.HashFullTree([][]byte{d})
+		if want := refLeaf(d); a != want || b != want {
+			r.Viol(fmt.Sprintf("C07:leaf-hash-wrong:len=%d", len(d)),
+				fmt.Sprintf("HashLeaf / hash_leaf of a %d-byte leaf = %x / %x, sha256(0x00 || leaf) = %x", len(d), a[:], b[:], want[:]))
+		}
+		return hx.Hex(a[:]) + " " + hx.Hex(b[:])
+	case "hchild":
+		l, ok1 := u256(hx.UnHex(op[1]))
+		rr, ok2 := u256(hx.UnHex(op[2]))
+		if !ok1 || !ok2 {
+			return "bad-op"
+		}
+		a := merkle.HashChildren(l, rr)
+		if want := refNode(l, rr); a != want {
+			r.Viol("C07:children-hash-wrong", fmt.Sprintf("HashChildren = %x, sha256(0x01 || l || r) = %x", a[:], want[:]))
+		}
+		return hx.Hex(a[:])
 	case "depth":
 		n, _ := strconv.Atoi(op[1])
 		return strconv.Itoa(merkle.VerifDepth(n))
@@ -102,6 +123,23 @@ func (f *mserve) Exec(r *hx.Run, op []string) string {
 		}
 		root := merkle.TreeHasher{}.HashFullTreeWithLeafHash(hs)
 		v, e := merkle.MerkleProve(path, root[:])
+		if e == nil && len(d) > 0 {
+			// the same path with the last byte of the record changed must not verify (unless that record is in the block too)
+			d2 := append([]byte{}, d...)
+			d2[len(d2)-1] ^= 0x01
+			in := false
+			for _, h := range hs {
+				if h == refLeaf(d2) {
+					in = true
+				}
+			}
+			if p2 := swapValue(path, d, d2); p2 != nil && !in {
+				if _, e3 := merkle.MerkleProve(p2, root[:]); e3 == nil {
+					r.Viol(fmt.Sprintf("C07:changed-record-accepted:len=%d", len(d)),
+						fmt.Sprintf("MerkleProve accepts the path of the %d-byte record %x for the record with its last byte changed", len(d), d))
+				}
+			}
+		}
 		for _, o := range otherRoots(root[:], refMTH(append([]common.Uint256{refLeaf([]byte("other"))}, hs...))) {
 			if _, e2 := merkle.MerkleProve(path, o); e2 == nil {
 				r.Viol(fmt.Sprintf("C08:served-path-verifies-against-another-root:n=%d", len(hs)),
@@ -131,7 +169,13 @@ func (f *mserve) Gen(r *hx.Run) {
 
 // genTreeCases is shared with the ledger family's generator (sizes and shapes of record lists).
 func genTreeCases(r *hx.Run, maxN int, big bool) {
+	special := []int{0, 1, 31, 32, 33, 63, 64, 65, 66, 127, 128, 129, 255, 256, 1000}
+	nrec := 0
 	rec := func() []byte {
+		nrec++
+		if nrec%5 == 0 {
+			return r.Rng.Bytes(special[(nrec/5)%len(special)])
+		}
 		switch r.Rng.Intn(8) {
 		case 0:
 			return []byte{}
@@ -140,6 +184,16 @@ func genTreeCases(r *hx.Run, maxN int, big bool) {
 		default:
 			return r.Rng.Bytes(1 + r.Rng.Intn(60))
 		}
+	}
+	r.Case("hashes")
+	for n := 0; n <= 140; n++ { // leaf hash per length, every length around the block and buffer boundaries
+		r.Do("hleaf " + hx.Hex(r.Rng.Bytes(n)))
+	}
+	for _, n := range []int{255, 256, 257, 1000, 4096} {
+		r.Do("hleaf " + hx.Hex(r.Rng.Bytes(n)))
+	}
+	for k := 0; k < 20; k++ {
+		r.Do(fmt.Sprintf("hchild %s %s", hx.Hex(r.Rng.Bytes(32)), hx.Hex(r.Rng.Bytes(32))))
 	}
 	r.Case("empty")
 	r.Do("fullroot -")
@@ -206,4 +260,18 @@ func genTreeCases(r *hx.Run, maxN int, big bool) {
 			r.Do("fullroot " + hexList(hs))
 		}
 	}
+}
+
+// swapValue replaces the value at the front of a path (varbytes) by another value of the same length.
+func swapValue(path, old, new []byte) []byte {
+	if len(old) != len(new) {
+		return nil
+	}
+	i := bytes.Index(path, old)
+	if len(old) == 0 || i < 0 || i > 9 {
+		return nil
+	}
+	out := append([]byte{}, path...)
+	copy(out[i:], new)
+	return out
 }
